@@ -1097,7 +1097,14 @@ static bool execOp(int idx, const Op& o) {
 	}
 #endif
 #if VH_HISTORY
-	else if (op == "rt")	r = in.m->replayTransition(static_cast<ffsm2::StateID>(o.a)) ? 1 : 0;
+	else if (op == "rt") {
+		// every other time the destination equals the machine's own record, that record itself is the argument (an lvalue that aliases the history)
+		const FSM::Transition& pt = in.m->previousTransition();
+		if (pt && pt.destination == static_cast<ffsm2::StateID>(o.a) && (in.opCount & 1u))
+			r = in.m->replayTransition(pt.destination) ? 1 : 0;
+		else
+			r = in.m->replayTransition(static_cast<ffsm2::StateID>(o.a)) ? 1 : 0;
+	}
 #if VH_MANUAL
 	else if (op == "re")	in.m->replayEnter(static_cast<ffsm2::StateID>(o.a));
 #endif
